@@ -112,6 +112,29 @@ def c171(ctx):
     ctx.floor(R, "atomic operations in skipfree/listfree", n, 18)
 
 
+def level_counts_up(f, op):
+    """The index operand is produced by a forward `0..n` range (or an index that starts at 0 and is only
+    incremented); nothing in its slice reverses or decrements it."""
+    srcs, _ = P.value_slice(f, op)
+    calls = {s["callee"] for s in srcs if s["k"] == "call"}
+    back = sorted(c for c in calls if re.search(r"Rev\b|::rev$|next_back$|::rfold$|::rposition$|::nth_back$", c))
+    subs = [s for s in srcs if s["k"] == "bin" and s["op"].startswith("Sub")]
+    if back or subs:
+        return False, "reversed by %s" % (back or "a subtraction")
+    fwd = any(re.search(r"^core::iter::range::(.*::)?next$", c) for c in calls)
+    starts = []
+    for s in srcs:
+        if s["k"] == "agg" and s.get("adt", "").startswith("core::ops::range::Range"):
+            starts += [o.get("v") for o in P.origin_consts(f, s["st"]["rv"]["ops"][0])]
+    if fwd and starts and all(str(v) in ("0", "0_usize") or v == 0 for v in starts):
+        return True, "for idx in 0..height"
+    adds = [s for s in srcs if s["k"] == "bin" and s["op"].startswith("Add")]
+    zero = any(s["k"] == "const" and (s.get("v") == 0 or str(s.get("v")) == "0") for s in srcs)
+    if adds and zero and not fwd:
+        return True, "idx starts at 0 and is incremented"
+    return False, "level index is not a forward range from 0 (calls %s, range starts %s)" % (sorted(calls), starts)
+
+
 def c172(ctx):
     R = "C17.2"
     ctx.declare(R, "a node's successor pointer is stored before the node is linked, on every retry")
@@ -141,6 +164,13 @@ def c172(ctx):
                       "cas_next swings prev[idx] from the same observed successor to x", "cas_next does not compare against the successor stored into the node", pt=p)
         nn = ctx.calls(R, f, r"skipfree::SkipList.*::new_node$")
         ctx.order_chain(R, f, [("new_node", nn), ("set_next", sn)])
+        # levels are linked bottom-up: a node reachable at level k already has its successors at every level below
+        # k, which searches descend through.  The level index handed to cas_next counts up from 0.
+        for p in cs:
+            up, why = level_counts_up(f, P.term_at(f, p)["args"][1])
+            ctx.check(R, f, "level-order", up, "levels are linked in ascending order starting at level 0 (%s)" % why,
+                      "the new node is not linked at level 0 first (%s): a search can descend through a tower whose lower "
+                      "levels are still null" % why, pt=p)
     f = ctx.fn(R, "listfree::List::prepend")
     if f:
         sn = ctx.calls(R, f, r"listfree::node_ptr::set_next$")
